@@ -267,6 +267,78 @@ def run(prop, seed, budget, ctx):
                     failures.append(dict(info, kind="P", k_ok=None, all_refs=all_refs, why=["definitions_schema-differs-from-inline-$defs"], entries=repr(entries), got=sorted(ds), inline=sorted(inline)))
             finally:
                 sys.setrecursionlimit(lim)
+    # part 4: named types behind serialized methods, members of an inherited discriminated hierarchy used on their own,
+    # unions of alternatives of one JSON type, a class recursive through an aggregate (properties) field
+    from apischema.json_schema import serialization_schema as sschema4
+    nf4 = 6 * budget; rnd4 = random.Random(seed * 5 + 3)
+    f4 = ["from dataclasses import dataclass, field", "from typing import *", "from apischema import serialized, discriminator", "from apischema.metadata import properties", ""]
+    shapes = []
+    for i in range(nf4):
+        ret = rnd4.choice(["Other{i}", "List[Other{i}]", "Optional[Other{i}]"]).format(i=i); twice = rnd4.random() < 0.5
+        f4 += ["@dataclass", f"class Other{i}:", "    o: int = 0", "", "@dataclass", f"class SH{i}:", "    a: int = 0", "    @serialized",
+               f"    def other(self) -> {ret}: ...", ] + (["    @serialized", f"    def again(self) -> Other{i}: ..."] if twice else []) + [""]
+        f4 += ["@dataclass", f"class SNode{i}:", "    v: int = 0", "    @serialized", f"    def twin(self) -> Optional['SNode{i}']: ...", ""]
+        k = rnd4.randint(2, 3)
+        f4 += [f"@discriminator({rnd4.choice(['type', 'kind'])!r})", f"class Pet{i}:", "    pass", ""]
+        for j in range(k): f4 += ["@dataclass", f"class Pet{i}_{j}(Pet{i}):", f"    f{j}: int = 0", ""]
+        f4 += ["@dataclass", f"class Owner{i}:", f"    pet: Pet{i}_0", ""]
+        f4 += [f"NT{i} = NewType('NT{i}', {rnd4.choice(['int', 'str', 'bool'])})", ""]
+        f4 += ["@dataclass", f"class PNode{i}:", "    v: int = 0", f"    kids: Dict[str, 'PNode{i}'] = field(default_factory=dict, metadata=properties)", ""]
+        shapes.append({"i": i, "twice": twice, "ret": ret, "k": k})
+    ns5 = dict(vars(build_module(f4, f"fam4_{seed}")))
+    def gen4(fn, tp, info, **kw):
+        lim = sys.getrecursionlimit(); sys.setrecursionlimit(1500)
+        try: return fn(tp, **kw)
+        except RecursionError: failures.append(dict(info, kind="P", k_ok=None, why=["schema-generation-does-not-terminate"])); return None
+        except Exception as e: failures.append(dict(info, kind="P", k_ok=None, why=["schema-generation-raises:" + type(e).__name__])); return None
+        finally: sys.setrecursionlimit(lim)
+    for sh in shapes:
+        i = sh["i"]
+        for all_refs in (False, True):
+            info = {"family4": "serialized-method", "src": [l for l in f4 if True][:0], "root": f"SH{i}", "all_refs": all_refs, "returns": sh["ret"], "twice": sh["twice"]}
+            evaluations += 1; distinct.add(("fam4", "ser", i, all_refs))
+            s = gen4(sschema4, ns5[f"SH{i}"], info, all_refs=all_refs)
+            if s is not None:
+                defs = closed_and_no_orphans(s, f"serialization_schema(SH{i})", info)
+                want = ([f"Other{i}"] if (all_refs or sh["twice"]) else []) + ([f"SH{i}"] if all_refs else [])
+                if sorted(defs) != sorted(want): failures.append(dict(info, kind="P", k_ok=None, why=["extracted-definitions-differ-from-the-rule"], got=sorted(defs), expected=sorted(want), schema=s))
+            info = {"family4": "recursive-through-a-serialized-method", "root": f"SNode{i}", "all_refs": all_refs}
+            evaluations += 1
+            s = gen4(sschema4, ns5[f"SNode{i}"], info, all_refs=all_refs)
+            if s is not None:
+                defs = closed_and_no_orphans(s, f"serialization_schema(SNode{i})", info)
+                if sorted(defs) != [f"SNode{i}"]: failures.append(dict(info, kind="P", k_ok=None, why=["extracted-definitions-differ-from-the-rule"], got=sorted(defs), expected=[f"SNode{i}"], schema=s))
+            for fn in (deserialization_schema, sschema4):
+                for root in (f"Pet{i}_0", f"List[Pet{i}_0]", f"Owner{i}", f"Pet{i}", f"Union[Pet{i}_0, Pet{i}_1]", f"Optional[Pet{i}_1]"):
+                    info = {"family4": "inherited-discriminator", "root": root, "all_refs": all_refs, "fn": fn.__name__, "subclasses": sh["k"]}
+                    evaluations += 1; distinct.add(("fam4", "disc", i, root.replace(str(i), ""), all_refs, fn.__name__))
+                    s = gen4(fn, eval(root, ns5), info, all_refs=all_refs)
+                    if s is not None:
+                        defs = s.get("$defs", {}); used = refs_in(s) + [y for v in defs.values() for y in refs_in(v)]
+                        dangling = sorted(set(x for x in used if x not in defs))
+                        if dangling: failures.append(dict(info, kind="P", k_ok=None, why=["dangling-$ref:" + ",".join(dangling)], schema=s))
+                        ok, msg = meta_valid(s)
+                        if ok is not True: failures.append(dict(info, kind="P", k_ok=None, why=["invalid-against-declared-meta-schema:" + msg], schema=s))
+                for root in (f"Union[int, NT{i}, str]", f"Union[NT{i}, bool, NT{i}]", f"List[Union[str, NT{i}, int, bool]]"):
+                    for ver in ("DRAFT_2020_12", "DRAFT_7", "OPEN_API_3_0"):
+                        info = {"family4": "alternatives-of-one-json-type", "root": root, "version": ver, "fn": fn.__name__}
+                        evaluations += 1
+                        s = gen4(fn, eval(root, ns5), info, version=getattr(JsonSchemaVersion, ver))
+                        if s is not None:
+                            ok, msg = meta_valid(s) if "$schema" in s else (None, "")
+                            if ok is False: failures.append(dict(info, kind="P", k_ok=None, why=["invalid-against-declared-meta-schema:" + msg], schema=s))
+                            def dup_types(j):
+                                if isinstance(j, dict):
+                                    t = j.get("type")
+                                    return (isinstance(t, list) and len(set(map(str, t))) != len(t)) or any(dup_types(v) for v in j.values())
+                                return isinstance(j, list) and any(dup_types(v) for v in j)
+                            if dup_types(s): failures.append(dict(info, kind="P", k_ok=None, why=["type-array-repeats-a-type"], schema=s))
+        info = {"family4": "recursive-through-a-properties-field", "root": f"PNode{i}"}
+        evaluations += 1
+        s = gen4(deserialization_schema, ns5[f"PNode{i}"], info)
+        if s is not None: closed_and_no_orphans(s, f"deserialization_schema(PNode{i})", info)
+    for f in failures:
+        if f.get("family4") and "src4" not in f: f["src4"] = f4
     # name clash: two distinct classes with one type_name must be refused
     clash_src = ["from dataclasses import dataclass", "from typing import *", "from apischema import type_name", "",
                  "@type_name('Same')", "@dataclass", "class A1:", "    a: int", "", "@type_name('Same')", "@dataclass", "class A2:", "    b: str", ""]
@@ -289,6 +361,9 @@ def run(prop, seed, budget, ctx):
 from typing import Tuple, List
 
 KF = {
+    # a class recursive through an aggregate field: `_object_schema` sets `_ignore_first_ref`, the first named type met is the
+    # class itself, which is therefore expanded in place again and again
+    "KF47": lambda c: c.get("family4") == "recursive-through-a-properties-field" and c["why"] == ["schema-generation-does-not-terminate"],
     # DRAFT_2019_09 declares the 2020-12 meta-schema URL while emitting array-form `items`
     "KF25": lambda c: c.get("version") == "DRAFT_2019_09" and c["why"][0].startswith("invalid-against-declared-meta-schema"),
 }
@@ -301,6 +376,21 @@ def is_known(kid, case):
 
 def replay(prop, case, ctx):
     from apischema.json_schema import deserialization_schema, serialization_schema, JsonSchemaVersion
+    if case.get("family4"):
+        ns = dict(vars(build_module(case["src4"], "fam4replay")))
+        fn = serialization_schema if (case.get("fn") == "serialization_schema" or case["family4"] in ("serialized-method", "recursive-through-a-serialized-method")) else deserialization_schema
+        kw = {}
+        if "all_refs" in case: kw["all_refs"] = case["all_refs"]
+        if case.get("version"): kw["version"] = getattr(JsonSchemaVersion, case["version"])
+        lim = sys.getrecursionlimit(); sys.setrecursionlimit(1500)
+        try: s = fn(eval(case["root"], ns), **kw)
+        except RecursionError: return {"fails": True, "real": "RecursionError"}
+        except Exception as e: return {"fails": True, "real": type(e).__name__ + ": " + str(e)[:200]}
+        finally: sys.setrecursionlimit(lim)
+        defs = s.get("$defs", s.get("definitions", {}))
+        dangling = [x for x in refs_in(s) + [y for v in defs.values() for y in refs_in(v)] if x not in defs and "$schema" in s]
+        return {"schema": s, "dangling": dangling, "expected": case.get("expected"), "got_defs": sorted(defs),
+                "fails": bool(dangling) or ("expected" in case and sorted(defs) != case["expected"]) or meta_valid(s)[0] is False}
     if "graph" in case and case.get("version"):
         from apischema.json_schema import definitions_schema
         mod = build_module(HEADER + case["src"], "refsreplay"); tp = eval(case["root"], dict(vars(mod)))
